@@ -1,6 +1,10 @@
 package app
 
-import sv "github.com/Oneledger/protocol/zz_sv"
+import (
+	"math/big"
+
+	sv "github.com/Oneledger/protocol/zz_sv"
+)
 
 // C03 — no unauthorised debit: only signers' holdings may decrease
 // (same exploration as C02, different goal).
@@ -74,4 +78,27 @@ func SV_C03_ons() {
 	e := svNewEnv(2+sv.Tier(), 20, svPreONS(pre))
 	raw, signers := svBuildONS(e, sv.Choice("kind", 7))
 	e.step(raw, signers, true).goalsC03(e.n)
+}
+
+// SV_C03_gov: create / fund / withdraw-funds / cancel (the beneficiary of a withdrawal is credited, never debited).
+//
+// sv:bounds as SV_C14_funds_and_stage
+// sv:goal as SV_C03_send (escrowed contributions count as their funder's holdings)
+func SV_C03_gov() {
+	svCurrencyLimit = 2
+	pre := &svPropPre{}
+	e := svNewEnv(2, 20, svPreGov(pre))
+	raw, signers := svBuildGov(e, sv.Choice("kind", 4))
+	r := e.step(raw, signers, true)
+	// escrow cells are owned by "escrow:<party>": fold them into the party's holdings
+	for i := 0; i < e.n; i++ {
+		name := svPartyName(i)
+		if i == signers[0] {
+			continue
+		}
+		h0 := new(big.Int).Add(r.before.holdings(name), r.before.holdings("escrow:"+name))
+		h1 := new(big.Int).Add(r.after.holdings(name), r.after.holdings("escrow:"+name))
+		sv.Assert(h1.Cmp(h0) >= 0, "non-signer-not-debited")
+	}
+	sv.Cover(r.resp.Code == 0, "delivered-ok")
 }
